@@ -44,6 +44,8 @@ pub fn parse(raw: &[u8]) -> Result<IndexMap<String, Vec<u8>>> {
         cursor.set_position(entry.name_address as u64);
         let name = cursor.read_shift_jis_string()?;
         cursor.set_position(entry.file_address as u64);
+        #[cfg(mila_verif)]
+        crate::verif_support::note_alloc(entry.file_size_unpadded as usize);
         let mut contents = vec![0; entry.file_size_unpadded as usize];
         cursor.read_exact(&mut contents)?;
         entries.insert(name, contents);
